@@ -162,6 +162,14 @@ func (c *twistPoint) Add(a, b *twistPoint, pool *bnPool) {
 }
 
 func (c *twistPoint) Double(a *twistPoint, pool *bnPool) {
+	if c == a {
+		// a.y is read again after c.y has been written: double a copy when the receiver aliases the operand.
+		tmp := newTwistPoint(pool)
+		tmp.Set(a)
+		c.Double(tmp, pool)
+		tmp.Put(pool)
+		return
+	}
 	// See http://hyperelliptic.org/EFD/g1p/auto-code/shortw/jacobian-0/doubling/dbl-2009-l.op3
 	A := newGFp2(pool).Square(a.x, pool)
 	B := newGFp2(pool).Square(a.y, pool)
